@@ -103,9 +103,11 @@ CHECKS["C09"] = dict(
           "ShortCircuitXORZero -> Prune graphs and both compiled circuits; the Lean pass applied to each dump must "
           "reproduce the next one exactly, and the proved hypothesis checkers must accept the real graphs. Independently, "
           "checkRefines (proved sound: an accepted pair computes equal outputs on every input) validates every "
-          "raw/prune-off/prune-on pair. Threshold and Yao-vs-GMW pairs (different algorithms) are tested by simulation, "
-          "exhaustive for <= 16 input bits; the target axis is false for division (Goldschmidt inexactness, known finding "
-          "with a kernel-checked witness)."),
+          "raw/prune-off/prune-on pair. The threshold and target axes are theorems at OPERATOR level (Props/C09Builders.lean, "
+          "corollaries of the C07 exactness theorems, every width and value: ripple vs Kogge-Stone adder and subtractor, "
+          "Karatsuba at any two thresholds and vs the array multiplier, Karatsuba vs Wallace, Hamming on both targets, long "
+          "divider on both targets); whole-program threshold and Yao-vs-GMW pairs are tested by simulation, exhaustive for "
+          "<= 16 input bits; the target axis differs only for division by ZERO (known finding with a kernel-checked witness)."),
     note=TB + "Compile's BFS numbering is validated per run (compileChecks inside the tied model function), not proved in "
               "general; pass hypotheses are chained by proved checkers on the real dumps; threshold/target equivalence is "
               "tested, not proved; fan-out counters modelled as unbounded naturals.")
